@@ -20,6 +20,7 @@ package main
 import (
 	"bytes"
 	"encoding/binary"
+	"encoding/json"
 	"errors"
 	"fmt"
 	"math"
@@ -255,6 +256,13 @@ func (r *runner) addCase(tb *tables, entry byte, in []byte, o obs) {
 	ent := []string{"EMany", "EIfBinary", "EObject"}[entry]
 	term := fmt.Sprintf("((%s, (%s, %s)), (%s, %s))", tb.coq(), ent, cbs(in), cbs(o.Out), finalTerm(o.Cls))
 	r.c.AddCase(term, map[string]interface{}{"entry": ent, "input_hex": fmt.Sprintf("%x", truncB(in, 8192)), "out": string(truncB(o.Out, 2048)), "class": o.Cls, "msg": o.Msg})
+}
+
+func minInt(a, b int) int {
+	if a < b {
+		return a
+	}
+	return b
 }
 
 func truncB(b []byte, n int) []byte {
@@ -887,6 +895,32 @@ func runC17(c *Ctx) {
 			o := r.one(in, "valid-long-payload", n <= 9000)
 			if o.Cls != clsOk || bytes.Count(o.Out, []byte("\n")) != 2 || !bytes.Contains(o.Out, []byte(`"message":"next"`)) {
 				c.Violate(Violation{Key: "valid-stream-rejected", Monitor: "valid-stream-decodes", Desc: fmt.Sprintf("a stream written by the binary encoder (one field of %d bytes, then an ordinary event) does not decode cleanly into two lines: %s", n, o.Msg), Case: map[string]interface{}{"payload_bytes": n, "input_len": len(in)}, Observed: string(truncB(o.Out, 200))})
+			}
+		}
+		// directed: every alignment of multi-byte item arguments (2-, 4- and 8-byte integers, a 2-byte string length, tags
+		// 260 and 1, a float64) against the 4096-byte refill boundary of the decoder's bufio.Reader: one padding string of every
+		// length 3880..4320 in front of them, then an ordinary event (seeded change C17-5: a short Read at a refill)
+		for n := 3880; n <= 4320; n++ {
+			w := &capture{}
+			l := zerolog.New(w)
+			pad := strings.Repeat("p", n)
+			l.Info().Str("p", pad).Int("a", 400).Int("b", 70000).Int64("c", 5000000000).Int("d", -400).Str("s", strings.Repeat("x", 300)).
+				IPAddr("ip", net.IPv4(10, 1, 2, 3)).Float64("f", 1.5).Time("t", time.Unix(1700000000, 0).UTC()).Uint64("u", 1<<40).Msg("aligned")
+			l.Warn().Str("k", "v").Msg("next")
+			in := bytes.Join(w.bufs, nil)
+			o := r.one(in, "valid-aligned", n%64 == 0)
+			lines := bytes.Split(bytes.TrimSuffix(o.Out, []byte("\n")), []byte("\n"))
+			bad := o.Cls != clsOk || len(lines) != 2 || !bytes.Contains(o.Out, []byte(`"message":"next"`))
+			if !bad {
+				for _, ln := range lines {
+					if !json.Valid(ln) {
+						bad = true
+					}
+				}
+			}
+			if bad {
+				c.Violate(Violation{Key: "valid-stream-rejected", Monitor: "valid-stream-decodes", Desc: fmt.Sprintf("a stream written by the binary encoder (a %d-byte string, then integers/strings/tags whose multi-byte arguments lie around stream offset 4096, then an ordinary event) does not decode cleanly into two JSON lines: %s", n, o.Msg), Case: map[string]interface{}{"padding_bytes": n, "stream_len": len(in)}, Observed: string(truncB(o.Out[minInt(len(o.Out), n):], 400))})
+				break
 			}
 		}
 		for i := 0; i < nmut; i++ {
